@@ -1,4 +1,4 @@
-import CTV.Lemmas.RacesTerm
+import CTV.Lemmas.RacesChrome
 import CTV.Lemmas.Lockset
 /-!
 # C17 — Multi-log submission returns a policy-satisfying SCT set or says it did not
@@ -94,6 +94,21 @@ theorem terminates (r : Run) (wf : WF r) (ops : List Op) : effective r (St.init 
   omega
 
 example : effective run2 (St.init run2) opsFast = 15 ∧ bound run2 = 20 := by decide
+
+/-- **no_deadlock**: as long as `GetSCTs` has not returned and no `SubmitToLog` call is pending, some action other
+than the caller's cancellation is enabled — together with `terminates`: unless a submitter hangs, `GetSCTs`
+returns; if one hangs, it returns when the caller's context ends (`ctxDone` then enables `collect`). -/
+theorem no_deadlock (r : Run) (wf : WF r) (ops : List Op) (hret : (after r ops).ret = none)
+    (hno : ∀ g l, (after r ops).gor g l ≠ .inflight) :
+    ∃ o, o ≠ Op.ctxDone ∧ (step r (after r ops) o).isSome = true :=
+  progress (inv_after wf ops) hret hno
+
+/-- after cancellation `GetSCTs` can always return at once -/
+theorem cancel_enables_return (r : Run) (s : St) (hret : s.ret = none) (hctx : s.ctx = true) :
+    (step r s .collect).isSome = true := by
+  simp [step, hret, hctx]
+
+example : (after run2 [.timerFire 1 1, .request 1 1, .ctxDone, .collect]).ret = some ([], true) := by decide
 
 /-! ## Policy thresholds (regenerated from ctpolicy) -/
 
@@ -312,6 +327,105 @@ theorem liveness_counterexample :
     (after run2 opsF10a).ctx = false ∧
     (∀ g ∈ run2.cfg, g.min ≤ ((([1, 2] : List Log).filter (fun l => decide (l ∈ g.logs))).length : Int)) := by
   decide
+
+theorem nodup_map_inj {α : Type} (f : α → Nat) : ∀ {L : List α}, (L.map f).Nodup → ∀ a ∈ L, ∀ b ∈ L, f a = f b → a = b
+  | [], _, a, ha, _, _, _ => by cases ha
+  | x :: xs, hn, a, ha, b, hb, hab => by
+    simp only [List.map_cons, List.nodup_cons] at hn
+    rcases List.mem_cons.mp ha with rfl | ha' <;> rcases List.mem_cons.mp hb with rfl | hb'
+    · rfl
+    · exact absurd (hab ▸ List.mem_map_of_mem (f := f) hb') hn.1
+    · exact absurd (hab ▸ List.mem_map_of_mem (f := f) ha') hn.1
+    · exact nodup_map_inj f hn.2 a ha' b hb' hab
+
+/-- the groups the Chrome policy builds from a log list with distinct URLs have the Chrome shape, and their minima
+do not exceed their sizes when `LogsByGroup` succeeds -/
+theorem chrome_shape_of_policy {m : Int} {ls : List LogInfo} {r : Run} (hc : policyCfg .chrome m ls = some r.cfg)
+    (hid : (ls.map (·.id)).Nodup) :
+    ∃ G N B, ChromeShape r G N B ∧ G.min ≤ G.logs.length ∧ N.min ≤ N.logs.length ∧ B.min ≤ B.logs.length := by
+  have hcfg := policyCfg_some hc
+  rw [chrome_groups] at hcfg
+  refine ⟨_, _, _, ⟨hcfg, rfl, rfl, rfl, nodup_dedup _, nodup_dedup _, nodup_dedup _, ?_, ?_, ?_, ?_⟩, ?_⟩
+  · intro l h1 h2
+    simp only [mem_dedup, List.mem_map, List.mem_filter] at h1 h2
+    obtain ⟨a, ⟨ha, hga⟩, rfl⟩ := h1
+    obtain ⟨b, ⟨hb, hgb⟩, hab⟩ := h2
+    have := nodup_map_inj (·.id) hid b hb a ha hab
+    subst this
+    simp_all
+  · intro l h1
+    simp only [mem_dedup, List.mem_map, List.mem_filter] at h1 ⊢
+    obtain ⟨a, ⟨ha, _⟩, rfl⟩ := h1
+    exact ⟨a, ha, rfl⟩
+  · intro l h1
+    simp only [mem_dedup, List.mem_map, List.mem_filter] at h1 ⊢
+    obtain ⟨a, ⟨ha, _⟩, rfl⟩ := h1
+    exact ⟨a, ha, rfl⟩
+  · intro l h1
+    simp only [mem_dedup, List.mem_map, List.mem_filter] at h1 ⊢
+    obtain ⟨a, ha, rfl⟩ := h1
+    cases hg : a.google
+    · exact Or.inr ⟨a, ⟨ha, by simp [hg]⟩, rfl⟩
+    · exact Or.inl ⟨a, ⟨ha, by simp [hg]⟩, rfl⟩
+  · unfold policyCfg at hc
+    dsimp only at hc
+    split at hc
+    · rename_i hall
+      rw [chrome_groups, List.all_eq_true] at hall
+      have h1 := (setMinInclusions_ok _ _).mp (hall _ List.mem_cons_self)
+      have h2 := (setMinInclusions_ok _ _).mp (hall _ (List.mem_cons_of_mem _ List.mem_cons_self))
+      have h3 := (setMinInclusions_ok _ _).mp (hall _ (List.mem_cons_of_mem _ (List.mem_cons_of_mem _ List.mem_cons_self)))
+      exact ⟨h1.2, h2.2, h3.2⟩
+    · cases hc
+
+/- FULL (the property's clause): "when enough compatible logs eventually answer successfully and the caller does
+   not cancel, GetSCTs reports success" — i.e. the conclusion below without the hypothesis `hearly`. That statement
+   is FALSE for this code: `liveness_counterexample` (finding F10a). What is missing is exactly `hearly`: no group
+   race may have ended unsuccessfully before the requests completed; in the timed code a group race without
+   cancellation ends unsuccessfully only after its last timer fired (i · PostBatchInterval), so `hearly` holds
+   whenever every request completes before the base group's last timer. The Apple shape (a single group) is not
+   covered by this theorem; for it the same statement holds by the same argument with `sumOther = 0`. -/
+/-- **liveness_partial** (Chrome policy): the groups are the ones `ChromeCTPolicy.LogsByGroup` builds from a log
+list with distinct URLs, every member of a group is in its submission session (positive weights), and `ops1` is any
+schedule after which the caller has not cancelled, no contacted log has failed, every goroutine has finished (every
+request completed) and no group race has ended unsuccessfully. Then every group is complete, and whatever
+happens next without cancellation (`ops2`), if `GetSCTs` returns it returns a nil error. -/
+theorem liveness_partial (m : Int) (ls : List LogInfo) (r : Run) (hc : policyCfg .chrome m ls = some r.cfg)
+    (hid : (ls.map (·.id)).Nodup) (wf : WF r) (hsess : ∀ g ∈ r.cfg, ∀ l ∈ g.logs, l ∈ r.session g.name)
+    (ops1 ops2 : List Op)
+    (hctx : (after r ops1).ctx = false)
+    (hok : ∀ l, (after r ops1).sub.results l ≠ some .err)
+    (hfin : ∀ g ∈ names r.cfg, ∀ l ∈ r.session g, (after r ops1).gor g l = .finished)
+    (hearly : ∀ g, (after r ops1).gdone g ≠ some false)
+    (hret : (after r ops1).ret = none)
+    (hnc : Op.ctxDone ∉ ops2) :
+    (∀ g ∈ r.cfg, (after r ops1).sub.needs g.name ≤ 0) ∧
+    ∀ res e, (exec r (after r ops1) ops2).ret = some (res, e) → e = false := by
+  obtain ⟨G, N, B, sh, hG, hN, hB⟩ := chrome_shape_of_policy hc hid
+  have hall := chrome_all_complete wf sh hsess hG hN hB ops1 hctx hok hfin
+  refine ⟨hall, ?_⟩
+  have hi := inv_after wf ops1
+  have hd : Done r (after r ops1) := {
+    ctx := hctx
+    needs := by
+      intro g hg
+      simp only [names, List.mem_map] at hg
+      obtain ⟨grp, hgrp, rfl⟩ := hg
+      exact hall grp hgrp
+    gdone := hearly
+    recvd := fun g hr => hearly g (hi.recvd_gdone g false hr)
+    ret := by intro ls e h; rw [hret] at h; cases h }
+  exact (done_exec ops2 hd hnc).ret
+
+/-- instance of `liveness_partial`: in `run2` both logs answer before the All-logs race has ended -/
+def opsInTime : List Op := [.timerFire 1 1, .request 1 1, .timerFire 2 2, .request 2 2,
+  .timerFire 0 1, .request 0 1, .setResult 1 1 true, .setResult 2 2 true, .timerFire 0 2]
+
+example : policyCfg .chrome 12 lsTwo = some run2.cfg ∧ (after run2 opsInTime).ctx = false ∧
+    (∀ g ∈ names run2.cfg, ∀ l ∈ run2.session g, (after run2 opsInTime).gor g l = .finished) ∧
+    (∀ g ∈ names run2.cfg, (after run2 opsInTime).gdone g = none) ∧
+    (exec run2 (after run2 opsInTime) [.groupDone 0, .groupDone 1, .groupDone 2, .recv 0, .recv 1, .recv 2, .collect]).ret
+      = some ([1, 2], false) := by decide
 
 /-! ## Data races: lock discipline -/
 
